@@ -104,6 +104,12 @@ class SymRandom:
             return self._draw(int(low), int(high), 'integers')
         n = int(size)
         vals = [self._draw(int(low), int(high), 'integers') for _ in range(n)]
+        budget = core.cur().memo.get(('rnd-collision-budget',), COLLISION_BUDGET[0])
+        if budget > 0:
+            # this array draw may contain repeated values (and values drawn before): the code under test has to cope, e.g. by
+            # redrawing; only after `budget` such draws the cut below applies
+            core.cur().memo[('rnd-collision-budget',)] = budget - 1
+            return funcs.np_array(vals, dtype=_np.int64)
         if self.distinct_arrays and int(high) - int(low) >= n:
             # rejection loops ("redraw until all different") are collapsed: the first draw is assumed
             # duplicate-free; the set of post-loop states is the same.
@@ -113,6 +119,7 @@ class SymRandom:
         return funcs.np_array(vals, dtype=_np.int64)
 
 
+COLLISION_BUDGET = [0]     # harness option: number of array draws per path that are NOT assumed duplicate-free
 REPLAY_RANDOM = [None]     # set by harness replays: generator that replays recorded draws
 
 
